@@ -178,7 +178,7 @@ func genCase(r *vf.Run, i int) (*caseSpec, []gen.Entry) {
 }
 
 func main() {
-	vf.Main("C03", "exploration", ruleText, 15, 300, body)
+	vf.Main("C03", "exploration", ruleText, 12, 200, body)
 }
 
 func body(r *vf.Run) {
@@ -192,7 +192,7 @@ func body(r *vf.Run) {
 		childBody(r)
 		return
 	}
-	n := r.N(60, 1200)
+	n := r.N(50, 1000)
 	all := make([]int, n)
 	for i := range all {
 		all[i] = i
@@ -207,7 +207,7 @@ func body(r *vf.Run) {
 			raceCases = append(raceCases, i)
 		}
 	}
-	if max := r.N(10, 100); len(raceCases) > max {
+	if max := r.N(8, 80); len(raceCases) > max {
 		raceCases = raceCases[:max]
 	}
 	runBatches(r, "race", true, raceCases)
